@@ -76,7 +76,7 @@ def predict_case(case):
             v.append(violation("transported_copy_answers_differently", {"transport": kind_, "error": repr(cp_)[:200]}, transport=kind_, **where))
             continue
         try:
-            same = np.array_equal(cp_.predict(Xnew), ref_l) and (ref_p is None or np.array_equal(cp_.predict_proba(Xnew), ref_p)) \
+            same = np.array_equal(cp_.predict(Xnew), ref_l) and (ref_p is None or np.allclose(cp_.predict_proba(Xnew), ref_p, rtol=1e-12, atol=1e-14)) \
                 and np.array_equal(cp_.predict(Xtr), model.labels_)
         except Exception as e:  # noqa
             same = False
